@@ -38,6 +38,13 @@ pub fn watch(case: &Case) {
     WATCH_IDX.fetch_add(1, Ordering::Relaxed);
 }
 
+/// Progress mark for monitors that make many library calls inside one case (C16's histories run on
+/// up to 16 threads): the CPU-time watchdog measures the time since the last mark, so that it bounds
+/// one call and not a whole phase.
+pub fn progress() {
+    WATCH_IDX.fetch_add(1, Ordering::Relaxed);
+}
+
 fn proc_cpu_seconds() -> f64 {
     let s = std::fs::read_to_string("/proc/self/stat").unwrap_or_default();
     // fields after the closing paren of comm
